@@ -32,11 +32,15 @@ def requirements(tier):
 def run_case(case):
     E = env.load()
     rnd = case_rng(case["seed"], case["idx"], "C06")
-    h = Hist(rnd, case["tier"])
+    spec0 = None
+    if case["idx"] % 8 == 5:
+        from .c17 import builder_spec
+        spec0 = builder_spec(rnd)
+    h = Hist(rnd, case["tier"], spec=spec0)
     C = {k: 0 for k in ("first_hour_twin_comparisons", "slots_compared_with_twin", "interior_window_checks", "pairs_checked",
                         "outside_or_naive_refused", "sim_refused_valid_change", "twin_refused", "build_failed", "hourly_values_window_checked",
                         "boundary_skipped")}
-    classes = set(gen.topo_classes(h.spec))
+    classes = set(gen.topo_classes(h.spec)) | ({"builder_model"} if spec0 is not None else set())
     if h.build_error:
         C["build_failed"] = 1
         return {"counters": C, "classes": sorted(classes), "violations": []}
@@ -49,7 +53,7 @@ def run_case(case):
         ups = [u for u in h.spec["objects"][h.spec["system"]]["params"]["usage_patterns"][1] if gen.jobs_of_up(h.spec, u)]
         if ups:
             up = rnd.choice(ups); j = rnd.choice(gen.jobs_of_up(h.spec, up))
-            attr = rnd.choice(["ram_needed", "compute_needed", "data_transferred"])
+            attr = rnd.choice([a for a, v in h.spec["objects"][j]["params"].items() if v[0] == "q" and a != "request_duration" and a != "video_duration"])
             old_v = h.spec["objects"][j]["params"][attr]
             changes = [{"obj": j, "attr": attr, "value": ["q", (old_v[1] or 1.0) * 1.37, old_v[2]]}]
             dk = "first_of_dependent_pattern"
